@@ -33,7 +33,7 @@ and “Parameters”: Pass State, Task State, and Parallel State.
 import sys
 assert sys.version_info >= (3, 0)  # Bomb out if not running Python3
 
-import hashlib, random, re, uuid
+import copy, hashlib, random, re, uuid
 
 """
 ASL paths use JSONPath.
@@ -762,8 +762,12 @@ def evaluate_payload_template(input, context, template):
             v = k
 
         if v_is_path_or_intrinsic:
+            if not isinstance(v, str):
+                raise IntrinsicFailure(
+                    "The value of {}.$ must be a Path or an Intrinsic Function.".format(k)
+                )
             if v == "$":  # It's a path representing the root node
-                v = clone(input)  # clone to avoid potential circular reference
+                v = copy.deepcopy(input)  # copy to avoid potential circular reference
             elif v.startswith("$"):  # It's a path
                 v = apply_path(input, context, v)
             else:  # It's an Intrinsic Function
